@@ -36,4 +36,19 @@ Inv_C14 == C14(cfg, S)
 Step_C14 == [][C14Step(cfg, S, S')]_vars
 Live_C03 == Admissible(cfg) => <>Terminated(cfg, S)
 
+(* simulation mode (tlc -simulate): every terminated behaviour prints the   *)
+(* configuration it ran and what happened to each node, from which the      *)
+(* driver scripts a concrete scenario (durations, outcomes) and replays it  *)
+(* into the real code                                                       *)
+RECURSIVE SeqOfSet(_)
+SeqOfSet(T) == IF T = {} THEN <<>> ELSE LET x == Min(T) IN <<x>> \o SeqOfSet(T \ {x})
+SimReport ==
+  IF Terminated(cfg, S)
+  THEN PrintT("SIM|" \o ToJson([c |-> [n |-> cfg.n, pure |-> cfg.pure, kind |-> cfg.kind, parent |-> cfg.parent,
+                                       req |-> [i \in 1..cfg.n |-> SeqOfSet(cfg.req[i])], crit |-> cfg.crit,
+                                       forever |-> cfg.forever, win |-> cfg.win, tmo |-> cfg.tmo, stmo |-> cfg.stmo,
+                                       dur |-> cfg.dur, sdur |-> cfg.sdur, cdur |-> cfg.cdur, scdur |-> cfg.scdur],
+                                 t0 |-> S.t0, te |-> S.te, tc |-> S.tc, st |-> S.st, nstart |-> S.nstart]))
+  ELSE TRUE
+
 =============================================================================
